@@ -162,6 +162,12 @@ def check_file_segment(seg, mode, spec, R, v):
                 if matched is not None:
                     pos += len(matched)
                     R.count("token_lists_matched")
+                    # "every token of the stream" includes its terminator: rules finish their per-file
+                    # work on the end-of-stream token, which must come exactly once, last
+                    core = _strip_pragma(matched)  # fix mode hands the trailing pragma token on as well
+                    eos = [j for j, t in enumerate(core) if getattr(t, "is_end_of_stream", False)]
+                    if eos != [len(core) - 1]:
+                        v.add(f"{mode}:{role}:" + ("no-end-of-stream-token" if not eos else "end-of-stream-token-not-last-or-repeated"))
                 else:
                     v.add(f"{mode}:{role}:" + ("no-tokens" if run == 0 else "tokens-differ-from-parser-result"))
                     pos += run
